@@ -230,12 +230,12 @@ check(
     quick=[unit("codec", "^TestC07BlockCuts", checks=500, timeout=900),
            unit("codec", "^TestC07MessageCuts", checks=2500, timeout=900),
            unit("codec", "^TestC07LongTailStrings", checks=150, timeout=900),
-           unit("codec", "^TestC07EveryKindLast", checks=1, timeout=900)],
+           unit("codec", "^TestC07Every", checks=1, timeout=900)],
     thorough=[unit("codec", "^TestC07BlockCuts", checks=10000, timeout=8000, shards=12),
               unit("codec", "^TestC07MessageCuts", checks=30000, timeout=8000, shards=4),
               unit("codec", "^TestC07LongTailStrings", checks=3000, timeout=8000, shards=2),
-              unit("codec", "^TestC07EveryKindLast", checks=1, timeout=8000),
-              unit("codec", "^TestC07EveryKindLast", variant="purego", checks=1, timeout=8000)],
+              unit("codec", "^TestC07Every", checks=1, timeout=8000),
+              unit("codec", "^TestC07Every", variant="purego", checks=1, timeout=8000)],
     manifest=dict(
         text="Exhaustive cut enumeration over generated encodings: decoding any proper prefix must return a non-nil error "
              "(no success, no panic), for plain and compressed streams, typed and inferred decoding, blocks and messages.",
